@@ -43,10 +43,11 @@ type obs struct {
 }
 
 type probe struct {
-	o           *obs
-	closeOnAct  error
-	closeOnRead error
-	readsSeen   int
+	panicInactive bool
+	o             *obs
+	closeOnAct    error
+	closeOnRead   error
+	readsSeen     int
 }
 
 func (p *probe) ev(k string, err error) {
@@ -93,6 +94,9 @@ func (p *probe) HandleException(ctx netty.ExceptionContext, ex netty.Exception) 
 
 func (p *probe) HandleInactive(ctx netty.InactiveContext, ex netty.Exception) {
 	p.ev("inactive", ex)
+	if p.panicInactive {
+		panic(errors.New("inactive handler failure"))
+	}
 	ctx.HandleInactive(ex)
 }
 
@@ -114,6 +118,8 @@ const (
 	kWFail  = "writeFail" // write-side failure in the background sender
 	kHolder = "holder"
 	kParent = "parentCancel"
+	// not a closer: the application's inactive handler panics (after recording the event)
+	kInactPanic = "inactiveHandlerPanics"
 )
 
 func scenario(cfg hlib.ChanCfg, kinds []string, bound int) *explore.Scenario {
@@ -140,6 +146,7 @@ func scenario(cfg hlib.ChanCfg, kinds []string, bound int) *explore.Scenario {
 			if has(kOnRead) {
 				p.closeOnRead = errRead
 			}
+			p.panicInactive = has(kInactPanic)
 			var parent context.Context = context.Background()
 			var cancelParent func()
 			if has(kParent) {
@@ -336,6 +343,7 @@ func build(tier string) []*explore.Scenario {
 		{kUser1, kUser2}, {kUser1, kOnRead}, {kUser1, kPeer}, {kUser1, kWFail}, {kUser1, kHolder}, {kOnRead, kHolder},
 		{kOnAct, kUser1}, {kPeer, kWFail}, {kParent, kUser1}, {kHolder, kWFail}, {kOnRead, kPeer},
 		{kUser1, kUser2, kOnRead}, {kUser1, kHolder, kPeer},
+		{kUser1, kInactPanic}, {kPeer, kInactPanic}, {kOnRead, kInactPanic},
 	}
 	if tier == "thorough" {
 		sets = append(sets, []string{kUser1, kUser2, kHolder}, []string{kOnRead, kWFail, kUser1}, []string{kParent, kHolder}, []string{kOnAct, kHolder, kUser1})
